@@ -183,7 +183,12 @@ def explore(make_bodies, trace_dirs, bound, check, field_base=None, shard=0, nsh
     stats = {'schedules': 0, 'points': 0, 'capped': False, 'errors': [], 'overlaps': 0, 'maxpoints': 0}
 
     def run(prefix):
-        ex = Execution(make_bodies(), prefix, trace_dirs, field_base).run()
+        made = make_bodies()
+        if trace_dirs is None:
+            bodies, dirs = made             # make_bodies() builds a fresh world and says where its code lives
+        else:
+            bodies, dirs = made, trace_dirs
+        ex = Execution(bodies, prefix, dirs, field_base).run()
         if ex.error is not None:
             stats['errors'].append('prefix %r: %s' % (prefix, ex.error))
         return ex
